@@ -3,7 +3,7 @@
    input (lists of notes of any length, arbitrary maps, any divisions); none is a finite sample.
    The model (Model/C05.v) is tied to partitura's code by the correspondence run of
    harness/props/c05.py on every check. *)
-From PV Require Import Lib.Base Lib.Round Model.C05 Model.C05_Spec Model.C05_Ext Model.C05_Inv Model.C05_Disp Proofs.C05_lib Proofs.C05_ties Proofs.C05 Proofs.C05_ext Proofs.C05_inv Proofs.C05_disp.
+From PV Require Import Lib.Base Lib.Round Model.C05 Model.C05_Spec Model.C05_Ext Model.C05_Inv Model.C05_Disp Model.C05_Voice Proofs.C05_lib Proofs.C05_ties Proofs.C05 Proofs.C05_ext Proofs.C05_inv Proofs.C05_disp Proofs.C05_voice.
 From Coq Require Import QArith Sorting.Sorted Permutation.
 #[local] Open Scope Z_scope.
 
@@ -346,3 +346,71 @@ Theorem dispatch_spec : forall uniq,
                 exists t', build_tree (IGroup ms) = Some t' /\ leaves t = leaves t').
 Proof. exact dispatch_spec_lemma. Qed.
 Print Assumptions dispatch_spec.
+
+(* ------------------------------------------------------------------ third hardening round: the voice column
+   written out (Model/C05_Voice.v).  [n_voice : option Z]; the loop writes the stated voice, or -1 for a
+   note without voice, and "Sanitize voice information" replaces every -1 by the maximum of the column + 1 *)
+
+(* O3: the voice column equals what the score states -- for EVERY stated voice v other than the code's own
+   marker -1: 0 (0-based numbering), a number after a gap, a negative number; a note WITHOUT voice gets the
+   documented replacement max + 1, the maximum taken over the raw column (stated voices, -1 for the missing
+   ones) of the notes that have a row; the stated voice -1 is replaced as well (known finding C05-K1) *)
+Theorem voice_column_spec : forall ns mp divs rows,
+  note_array ns mp divs = Some rows ->
+  forall r, In r rows ->
+  exists h d, In h (notes_tied (sounding ns)) /\ duration_tied ns (List.length ns) h = Some d /\
+              row_matches mp divs h d r /\
+              (forall v, n_voice h = Some v -> v <> -1 -> r_voice r = v) /\
+              (n_voice h = None -> r_voice r = zmax_of (map raw_voice (notes_tied (sounding ns))) + 1) /\
+              (n_voice h = Some (-1) -> r_voice r = zmax_of (map raw_voice (notes_tied (sounding ns))) + 1).
+Proof. exact voice_column_spec_lemma. Qed.
+Print Assumptions voice_column_spec.
+
+(* O6: the same for the rests (the maximum is taken over the rests) *)
+Theorem voice_column_rest_spec : forall ns mp divs rows,
+  rest_array ns mp divs = Some rows ->
+  forall r, In r rows ->
+  exists h d, In h (filter n_rest ns) /\ duration_tied ns (List.length ns) h = Some d /\
+              row_matches mp divs h d r /\ voice_column (filter n_rest ns) h r.
+Proof. exact voice_column_rest_spec_lemma. Qed.
+Print Assumptions voice_column_rest_spec.
+
+(* the maximum is the largest member of a non-empty column, and the replacement number lies above every
+   voice the score states for a note of the array (it is never a stated voice) *)
+Theorem voice_replacement_spec :
+  (forall l, l <> [] -> In (zmax_of l) l /\ forall x, In x l -> x <= zmax_of l) /\
+  (forall sel h v, In h sel -> n_voice h = Some v -> v < zmax_of (map raw_voice sel) + 1).
+Proof. exact (conj zmax_of_spec_lemma replacement_above_stated_lemma). Qed.
+Print Assumptions voice_replacement_spec.
+
+(* O7/O3: the score that note_array_to_score builds is a score like any other -- the voice column of its
+   note array states the voices of the notes created for the rows (0 for a 0-based voice column) *)
+Theorem rebuilt_voice_column : forall l divs A bt out, roundtrip l divs A bt = Some out ->
+  forall r, In r out ->
+  exists h d, In h (notes_tied (sounding (rebuild 0 (inv_sort l)))) /\
+              duration_tied (rebuild 0 (inv_sort l)) (List.length (rebuild 0 (inv_sort l))) h = Some d /\
+              row_matches (rebuilt_maps divs A bt) divs h d r /\
+              voice_column (notes_tied (sounding (rebuild 0 (inv_sort l)))) h r.
+Proof. exact rebuilt_voice_column_lemma. Qed.
+Print Assumptions rebuilt_voice_column.
+
+(* not vacuous: voices 0, 1, none, 0 give the column 0, 1, 2, 0 (staff 0 is staff 0); a rest in voice 0 next
+   to a rest without voice gives 0, 1; voices 0, 5, -3, none give 0, 5, -3, 6 *)
+Theorem voice_column_example :
+  option_map (map vview) (note_array ex_voices (maps_of [] [] []) 4)
+    = Some [ ("a", 0, 0); ("b", 1, 0); ("c", 2, 0); ("d", 0, 0) ]%string /\
+  option_map (map vview) (rest_array ex_voices (maps_of [] [] []) 4)
+    = Some [ ("r", 0, 0); ("s", 1, 0) ]%string /\
+  option_map (map vview) (note_array ex_voices_gap (maps_of [] [] []) 4)
+    = Some [ ("a", 0, 0); ("b", 5, 0); ("c", -3, 0); ("d", 6, 0) ]%string.
+Proof. exact ex_voices_values. Qed.
+Print Assumptions voice_column_example.
+
+(* C05-K1, the boundary of voice_column_spec: the clause "the voice equals what the score states" fails for the
+   stated voice -1 (voices -1, 2: the note in voice -1 is reported in voice 3) *)
+Theorem voice_minus_one_refuted :
+  exists ns rows h r, note_array ns (maps_of [] [] []) 4 = Some rows /\
+    In h (notes_tied (sounding ns)) /\ In r rows /\ r_id r = n_id h /\
+    n_voice h = Some (-1) /\ r_voice r = 3.
+Proof. exact ex_voices_k1_values. Qed.
+Print Assumptions voice_minus_one_refuted.
